@@ -378,6 +378,13 @@ def run_property(mod, pid, tier, seed, replay=None):
                                "mention Gen.v/GenK.v refer to the last text it could read, and only the differential "
                                "correspondence ties those parts of the model to the code in this run"
                                % cov["translator"].replace("\n", "; "))
+            if "TRANSLATE-ERROR(kernels)" in cov["translator"] and getattr(mod, "SOURCE_TIE", None) == "kernels":
+                # this property's source-level theorems (C14_source_*, C15_source_*) are about the kernels' text: if the text can no
+                # longer be read, they no longer speak about the current code
+                what = [l for l in cov["translator"].split("\n") if "kernels" in l][0]
+                rep.violation("the translated-source theorems of %s are stale: %s" % (pid, what),
+                              {"broken": ["tools/gen_kernels.py could not translate the current reduce.rs / rounding*.rs (%s)" % what,
+                                          "GenKReduce / GenKRounding / PSrc* are about the last readable text"]}, False)
         build_coq([f + ".vo" for f in MODEL_FILES])
     except BuildError as e:
         rep.violation(e.what, {"broken": [e.what], "log": e.log}, False)
@@ -460,7 +467,7 @@ def execute(mod, rep, cov, cases, tier, rng, verbose=False):
     tmo = getattr(mod, "TIMEOUT", {}).get(tier, 600)
     t0 = time.time()
     with ThreadPoolExecutor(max_workers=4) as ex:
-        mlines = [l for l, c in zip(lines, cases) if "crate-only" not in c.tags]
+        mlines = [l.replace("~d ", " ", 1) for l, c in zip(lines, cases) if "crate-only" not in c.tags]   # the model has no output objects
         fm = ex.submit(run_runner, MODELRUN, mlines, NPROC, tmo)
         fd = ex.submit(run_runner, DVH_DEV, lines, max(2, NPROC // 2), tmo)
         rel_lines = [l for l, c in zip(lines, cases) if not c.skip_release]
@@ -468,6 +475,26 @@ def execute(mod, rep, cov, cases, tier, rng, verbose=False):
         fn = ex.submit(run_runner, DVH_NAT, rel_lines, max(2, NPROC // 2), tmo)
         (m, mh), (d, dh), (r, rh), (nat, nh) = fm.result(), fd.result(), fr.result(), fn.result()
     cov["run_s"] = round(time.time() - t0, 2)
+    # dirty-output pass: the same crate calls with every OUTPUT object the harness allocates (polynomials, vectors) pre-filled
+    # with old values ("<fn>~d"); a result that changes means the operation reads or keeps what its output held before
+    NONDET = ("live", "_rand", "volume", "selfcheck", "history", "purity", "rng_threads", "verify_race", "search", "sweep", "flips")
+    idx = [i for i, c in enumerate(cases) if not any(t in c.fn for t in NONDET)]
+    if len(idx) > 4000:
+        idx = sorted(rng.sample(idx, 4000))
+    dl = ["%d %s~d %s %s" % (i, cases[i].fn, cases[i].copy, " ".join(cases[i].args)) for i in idx]
+    dd, dhang = run_runner(DVH_DEV, dl, max(2, NPROC // 2), tmo)
+    ndirty = 0
+    for i in idx:
+        a, b = d.get(i), dd.get(i)
+        if a is None or b is None or a == b:
+            continue
+        ndirty += 1
+        if ndirty <= 3:
+            rep.violation("%s/%s gives a different result when its output object holds old values on entry (clean: %s, dirty: %s)"
+                          % (cases[i].fn, cases[i].copy, trunc(a, 60), trunc(b, 60)),
+                          {"cases": [dict(case_json(cases[i]), fn=cases[i].fn + "~d")], "crate_dev": a, "crate_dev_dirty_output": b}, True)
+    cov["dirty_output_variants_run"] = len(idx)
+    cov["evaluations"] = cov.get("evaluations", 0) + len(idx)
     hist, nontrivial = {}, set()
     oracle = getattr(mod, "oracle", None)
     nontriv = getattr(mod, "nontrivial", lambda c, out: bool(c.tags))
